@@ -204,7 +204,7 @@ fn scripts(seed: u64, count: usize, no_type1: bool) -> Vec<Vec<Op>> {
     } } } }
     // MANY message streams on one connection (every one sends audio and video, then the first ones speak again): the chunk stream a
     // message goes out on must stay decodable whatever number of message streams the serializer has seen
-    for &n in &[3u32, 29, 30, 31, 70] { for &base in &[1u32, 0x7FFFFFF0, 0xFFFFFF00] {
+    for &n in &[3u32, 29, 30, 31, 70, 130] { for &base in &[1u32, 100, 1000, 21800, 0x7FFFFFF0, 0xFFFFFF00] {
         let mut sc = vec![];
         for k in 0..n { for ty in [8u8, 9] { sc.push(Op::Send { m: Msg { ts: 10 * k, ty, msid: base.wrapping_add(k), data: payload(if ty == 9 { 140 } else { 9 }, k as u8) }, force: false, dropp: false }); } }
         for k in 0..3u32 { sc.push(Op::Send { m: Msg { ts: 10 * n + k, ty: 9, msid: base.wrapping_add(k), data: payload(140, 200 + k as u8) }, force: false, dropp: false }); }
